@@ -356,6 +356,9 @@ func (s *scen) step() {
 			}
 		}})
 	}
+	if r.cfg.basectx && !r.baseEnded {
+		acts = append(acts, act{2, func() { r.baseCtxEnd() }})
+	}
 	if waiting < 2 {
 		acts = append(acts, act{f.wWait, func() { r.callWait() }})
 	}
@@ -562,6 +565,9 @@ func runServerScenario(t *testing.T, fam string, seed uint64, idx int, out *bufi
 		policy = "fifo"
 	} else if idx%6 == 5 {
 		policy = "race"
+	}
+	if policy == "race" && idx%12 == 5 {
+		cfg.basectx = true // monitors only: the model has no base context
 	}
 	synctest.Test(t, func(t *testing.T) {
 		r := newSrvRun(cfg, out)
